@@ -11,10 +11,10 @@ import (
 
 // ledger columns (expect/ledger.json in DESIGN terms — frozen here with the reason).
 var ledgerCols = map[string][]string{
-	"BatchBalance":  {"TradableAmount", "RetiredAmount", "EscrowedAmount"}, // per (address, batch): T, R, E
+	"BatchBalance":  {"TradableAmount", "RetiredAmount", "EscrowedAmount"},  // per (address, batch): T, R, E
 	"BatchSupply":   {"TradableAmount", "RetiredAmount", "CancelledAmount"}, // per batch: sT, sR, sC
-	"BasketBalance": {"Balance"},                                           // per (basket, batch denom): B
-	"SellOrder":     {"Quantity"},                                          // per order: Q
+	"BasketBalance": {"Balance"},                                            // per (basket, batch denom): B
+	"SellOrder":     {"Quantity"},                                           // per order: Q
 }
 
 type ColDelta struct {
